@@ -44,6 +44,7 @@ Record lock_row := mk_row {
      a section split by Cond.Wait is accepted only under the exclusive mutex (sync.Cond semantics:
      the wait releases and re-takes it; the retry loop is then re-validated under the lock);
    - no re-acquisition (sync mutexes are not re-entrant);
+   - sync.Cond.Wait only inside a section of the exclusive mutex that accesses the guarded state;
    - the reported mode is consistent with the counts. *)
 Definition is_self (r : lock_row) : bool := String.eqb (r_owner r) "self".
 
@@ -55,7 +56,8 @@ Definition method_ok (r : lock_row) : bool :=
     && negb (r_reacquire r)
     && (if is_self r then (r_sections r <=? 1) || (r_condwait r && lmode_eqb (r_mode r) LExcl) else true)
     && (if 0 <? r_writes r then lmode_eqb (r_mode r) LExcl else true)
-    && (if 0 <? accesses r then negb (lmode_eqb (r_mode r) LNone) else true) ).
+    && (if 0 <? accesses r then negb (lmode_eqb (r_mode r) LNone) else true)
+    && (if r_condwait r then lmode_eqb (r_mode r) LExcl && (0 <? accesses r) else true) ).
 
 (* what the discipline means, as a proposition (used as the premise of the Lin theorem) *)
 Inductive op_class := ClsExcl | ClsSharedRO | ClsStateless | ClsQuiescent.
